@@ -191,7 +191,7 @@ class Java(Lang):
                 break
             r = run(cmd + ["--skip", str(skip)], timeout=RUN_TIMEOUT)
             timeouts += 1 if r.timed_out else 0
-            evs = [e for e in parse_events(r.stdout) if e.get("ev") in ("enc", "dec", "deckey")][:len(ops) - skip]
+            evs = [e for e in parse_events(r.stdout) if e.get("ev") in ("enc", "encinto", "dec", "deckey")][:len(ops) - skip]
             events += evs
             skip += len(evs)
             if skip >= len(ops):
@@ -220,7 +220,10 @@ class Java(Lang):
     @staticmethod
     def _crash_event(op, why):
         ev = {"ev": op["op"], "id": op["id"], "ok": False, "cls": "crash", "err": why}
-        if op["op"] != "enc":
+        if op["op"] == "encinto":
+            ev["pre"] = len(op.get("pre", []))
+            ev["rd"] = int(op.get("rd", 0))
+        elif op["op"] != "enc":
             ev["tail"] = len(op.get("tail", []))
             ev["consumed"] = -1
         return ev
